@@ -1,6 +1,6 @@
 /* cjv_vm.c - case interpreter: one line = one op on a register file of cJSON pointers.
  *
- *   case <id> <cfg>      begin a case (cfg: default|custom|arena|onlymalloc|onlyfree)
+ *   case <id> <cfg>      begin a case (cfg: default|custom|arena|onlymalloc|onlyfree, optional suffix +e<errno>)
  *   <op> args...         see the table in exec()
  *   end                  ledger summary, slots dropped
  *
@@ -184,7 +184,7 @@ static void op_create(toks *t)
     if (!strcmp(op, "cnull")) { LIB_BEGIN("cJSON_CreateNull"); r = cJSON_CreateNull(); LIB_END(); }
     else if (!strcmp(op, "ctrue")) { LIB_BEGIN("cJSON_CreateTrue"); r = cJSON_CreateTrue(); LIB_END(); }
     else if (!strcmp(op, "cfalse")) { LIB_BEGIN("cJSON_CreateFalse"); r = cJSON_CreateFalse(); LIB_END(); }
-    else if (!strcmp(op, "cbool")) { ARGN(2); LIB_BEGIN("cJSON_CreateBool"); r = cJSON_CreateBool((cJSON_bool)tk_int(T(2))); LIB_END(); }
+    else if (!strcmp(op, "cbool")) { ARGN(2); LIB_BEGIN("cJSON_CreateBool"); r = cJSON_CreateBool(TRU((cJSON_bool)tk_int(T(2)))); LIB_END(); }
     else if (!strcmp(op, "cnum")) { ARGN(2); LIB_BEGIN("cJSON_CreateNumber"); r = cJSON_CreateNumber(tk_dbl(T(2))); LIB_END(); }
     else if (!strcmp(op, "cstr")) { char *s; ARGN(2); s = tk_str(T(2)); LIB_BEGIN("cJSON_CreateString"); r = cJSON_CreateString(s); LIB_END(); xfree(s); }
     else if (!strcmp(op, "craw")) { char *s; ARGN(2); s = tk_str(T(2)); LIB_BEGIN("cJSON_CreateRaw"); r = cJSON_CreateRaw(s); LIB_END(); xfree(s); }
@@ -283,7 +283,7 @@ static void op_helper(toks *t)
     else if (!strcmp(op, "hfalse")) { dst = T(3); LIB_BEGIN("cJSON_AddFalseToObject"); r = cJSON_AddFalseToObject(o, k); LIB_END(); }
     else if (!strcmp(op, "hobj")) { dst = T(3); LIB_BEGIN("cJSON_AddObjectToObject"); r = cJSON_AddObjectToObject(o, k); LIB_END(); }
     else if (!strcmp(op, "harr")) { dst = T(3); LIB_BEGIN("cJSON_AddArrayToObject"); r = cJSON_AddArrayToObject(o, k); LIB_END(); }
-    else if (!strcmp(op, "hbool")) { ARGN(4); dst = T(4); LIB_BEGIN("cJSON_AddBoolToObject"); r = cJSON_AddBoolToObject(o, k, (cJSON_bool)tk_int(T(3))); LIB_END(); }
+    else if (!strcmp(op, "hbool")) { ARGN(4); dst = T(4); LIB_BEGIN("cJSON_AddBoolToObject"); r = cJSON_AddBoolToObject(o, k, TRU((cJSON_bool)tk_int(T(3)))); LIB_END(); }
     else if (!strcmp(op, "hnum")) { ARGN(4); dst = T(4); LIB_BEGIN("cJSON_AddNumberToObject"); r = cJSON_AddNumberToObject(o, k, tk_dbl(T(3))); LIB_END(); }
     else if (!strcmp(op, "hstr")) { char *s; ARGN(4); dst = T(4); s = tk_str(T(3)); LIB_BEGIN("cJSON_AddStringToObject"); r = cJSON_AddStringToObject(o, k, s); LIB_END(); xfree(s); }
     else if (!strcmp(op, "hraw")) { char *s; ARGN(4); dst = T(4); s = tk_str(T(3)); LIB_BEGIN("cJSON_AddRawToObject"); r = cJSON_AddRawToObject(o, k, s); LIB_END(); xfree(s); }
@@ -358,7 +358,7 @@ static void op_set(toks *t)
         LIB_BEGIN("cJSON_SetIntValue"); r = cJSON_SetIntValue(o, v); LIB_END();
         rlog("%d", (int)r);
     } else if (!strcmp(op, "setbool")) {
-        int v = (int)tk_int(T(2)), r;
+        int v = TRU((int)tk_int(T(2))), r;
         LIB_BEGIN("cJSON_SetBoolValue"); r = cJSON_SetBoolValue(o, v); LIB_END();
         rlog("%d", r & 0xFF);     /* the type proper; which ownership flag bits ride along is not part of any property */
     } else if (!strcmp(op, "setstr")) {
@@ -432,9 +432,9 @@ static void op_parse(toks *t)
     else buf = ga_make(&g, b, n, GP_END, 1);
     switch (variant) {
     case 0: LIB_BEGIN("cJSON_Parse"); r = cJSON_Parse((char *)buf); LIB_END(); break;
-    case 1: LIB_BEGIN("cJSON_ParseWithOpts"); r = cJSON_ParseWithOpts((char *)buf, &end, rnt); LIB_END(); break;
+    case 1: LIB_BEGIN("cJSON_ParseWithOpts"); r = cJSON_ParseWithOpts((char *)buf, &end, TRU(rnt)); LIB_END(); break;
     case 2: LIB_BEGIN("cJSON_ParseWithLength"); r = cJSON_ParseWithLength((char *)buf, n); LIB_END(); break;
-    default: LIB_BEGIN("cJSON_ParseWithLengthOpts"); r = cJSON_ParseWithLengthOpts((char *)buf, n, &end, rnt); LIB_END(); break;
+    default: LIB_BEGIN("cJSON_ParseWithLengthOpts"); r = cJSON_ParseWithLengthOpts((char *)buf, n, &end, TRU(rnt)); LIB_END(); break;
     }
     ga_release(&g);
     xfree(b);
@@ -454,7 +454,7 @@ static void op_print(toks *t)
     variant = (int)tk_int(T(2));
     if (variant == 0) { LIB_BEGIN("cJSON_Print"); r = cJSON_Print(s); LIB_END(); }
     else if (variant == 1) { LIB_BEGIN("cJSON_PrintUnformatted"); r = cJSON_PrintUnformatted(s); LIB_END(); }
-    else if (variant == 2) { ARGN(4); LIB_BEGIN("cJSON_PrintBuffered"); r = cJSON_PrintBuffered(s, (int)tk_int(T(3)), (cJSON_bool)tk_int(T(4))); LIB_END(); }
+    else if (variant == 2) { ARGN(4); LIB_BEGIN("cJSON_PrintBuffered"); r = cJSON_PrintBuffered(s, (int)tk_int(T(3)), TRU((cJSON_bool)tk_int(T(4)))); LIB_END(); }
     else {
         garena g;
         long len;
@@ -463,7 +463,7 @@ static void op_print(toks *t)
         ARGN(4);
         len = tk_int(T(3));
         buf = (char *)ga_make(&g, NULL, (size_t)(len > 0 ? len : 0), GP_END, 0);
-        LIB_BEGIN("cJSON_PrintPreallocated"); ok = cJSON_PrintPreallocated(s, buf, (int)len, (cJSON_bool)tk_int(T(4))); LIB_END();
+        LIB_BEGIN("cJSON_PrintPreallocated"); ok = cJSON_PrintPreallocated(s, buf, (int)len, TRU((cJSON_bool)tk_int(T(4)))); LIB_END();
         if (ok) rlog("%08x", cjv_crc32(buf, strlen(buf))); else rlog("nil");
         last_failed = !ok;
         ga_release(&g);
@@ -493,7 +493,7 @@ static void op_dup(toks *t)
 {
     cJSON *r;
     ARGN(3);
-    LIB_BEGIN("cJSON_Duplicate"); r = cJSON_Duplicate(tk_item(T(2)), (cJSON_bool)tk_int(T(3))); LIB_END();
+    LIB_BEGIN("cJSON_Duplicate"); r = cJSON_Duplicate(tk_item(T(2)), TRU((cJSON_bool)tk_int(T(3)))); LIB_END();
     set_slot(T(1), r);
     last_failed = (r == NULL);
     rptr(r);
@@ -503,7 +503,7 @@ static void op_cmp(toks *t)
 {
     cJSON_bool r;
     ARGN(3);
-    LIB_BEGIN("cJSON_Compare"); r = cJSON_Compare(tk_item(T(1)), tk_item(T(2)), (cJSON_bool)tk_int(T(3))); LIB_END();
+    LIB_BEGIN("cJSON_Compare"); r = cJSON_Compare(tk_item(T(1)), tk_item(T(2)), TRU((cJSON_bool)tk_int(T(3)))); LIB_END();
     rlog("%d", r ? 1 : 0);
 }
 
@@ -557,7 +557,7 @@ static void op_utils(toks *t)
         const char *mode;
         ARGN(3);
         mode = T(1); o = tk_item(T(2)); cs = (int)tk_int(T(3));
-        LIB_BEGIN("cJSON_Duplicate"); d = cJSON_Duplicate(o, 1); LIB_END();
+        LIB_BEGIN("cJSON_Duplicate"); d = cJSON_Duplicate(o, TRU(1)); LIB_END();
         if (!strcmp(mode, "genp")) {
             if (cs) { LIB_BEGIN("cJSONUtils_GeneratePatchesCaseSensitive"); r = cJSONUtils_GeneratePatchesCaseSensitive(o, d); LIB_END(); }
             else { LIB_BEGIN("cJSONUtils_GeneratePatches"); r = cJSONUtils_GeneratePatches(o, d); LIB_END(); }
@@ -784,6 +784,12 @@ static int real_main(int argc, char **argv)
             char cfg[32] = "default";
             long id = -1;
             sscanf(line + 5, "%ld %31s", &id, cfg);
+            cjv_errno_preset = 0;
+            if (strchr(cfg, '+')) {     /* default+e34: stale errno 34 at the start of every library call */
+                char *plus = strchr(cfg, '+');
+                if (plus[1] == 'e') cjv_errno_preset = atoi(plus + 2);
+                *plus = 0;
+            }
             if ((skip_before >= 0 && id < skip_before) || (only_case >= 0 && id != only_case)) {
                 /* skip to the matching end */
                 while ((len = getline(&line, &cap, in)) >= 0) if (!strncmp(line, "end", 3)) break;
